@@ -23,6 +23,7 @@ EXPLANATION = (
     'logs MultiRecordable forwards every virtual to every child; MultiLogRecordProcessor::OnEmit/MakeRecordable visit every '
     'processor without early exit. C13.R5 (dispatch table from the instantiations): each documented argument type selects the '
     'documented setter. C13.R6 (last-write-wins): ReadWriteLogRecord::SetAttribute stores with an overwriting form.')
+EXPLANATION += " C13.R6: every ReadWriteLogRecord setter stores each parameter on every path. C13.R7: no path through SimpleLogRecordProcessor::OnEmit avoids the exporter's Export. C13.R1 (exposure of finding D9): while the SDK record keeps non-owning attribute values, the API container setter iterates the caller's container by reference."
 NOT_DECIDED = 'value equality at export; that every argument combination compiles to the documented setter beyond the instantiated ones.'
 
 
